@@ -1031,4 +1031,155 @@ theorem quantizeModel_within {env : Env} {tn : Tune} {layers : List Layer} {o : 
       cases h
       exact (loop2_inv hK1 (fun L hL => hL) ⟨hG0, by intro x hx; simp at hx⟩ hres2).2
 
+/-! ## `_adjust_limit` against the documented completion -/
+
+theorem alookup_areplace {k n : String} {v : LimEntry} :
+    ∀ {lim : Limit}, alookup k (areplace n v lim) =
+      if k = n then (if (alookup n lim).isSome then some v else none) else alookup k lim
+  | [] => by simp [areplace, alookup]
+  | (k', v') :: t => by
+    unfold areplace
+    by_cases h1 : k' = n
+    · subst h1
+      by_cases h2 : k = k'
+      · subst h2; simp [alookup]
+      · have h3 : ¬ k' = k := fun h => h2 h.symm
+        simp [alookup, h2, h3]
+    · have ih := alookup_areplace (k := k) (n := n) (v := v) (lim := t)
+      by_cases h2 : k = n
+      · subst h2
+        have h3 : ¬ k' = k := h1
+        simp only [alookup, h1, if_false, h3] at ih ⊢
+        simpa using ih
+      · simp only [if_neg h1, alookup, if_neg h2] at ih ⊢
+        by_cases h3 : k' = k
+        · simp [h3]
+        · simp [h3, ih]
+
+theorem limKeys_areplace {n : String} {v : LimEntry} :
+    ∀ {lim : Limit}, limKeys (areplace n v lim) = limKeys lim
+  | [] => rfl
+  | (k', v') :: t => by
+    unfold areplace
+    split
+    · simp [limKeys]
+    · have := limKeys_areplace (n := n) (v := v) (lim := t)
+      simp only [limKeys, List.map_cons] at this ⊢
+      rw [this]
+
+/-- the loop over class names: keys and their order are untouched; a name of the list that is a key
+    carries the adjusted entry, every other key its old value -/
+theorem adjustLoop_spec {d : List LimVal} :
+    ∀ {names : List String} {lim L : Limit}, names.Nodup → adjustLoop d names lim = .ok L →
+      limKeys L = limKeys lim ∧
+      (∀ k, k ∉ names → alookup k L = alookup k lim) ∧
+      (∀ k e, k ∈ names → alookup k lim = some e →
+          ∃ e', adjustEntry d k e = .ok e' ∧ alookup k L = some e') ∧
+      (∀ k, k ∈ names → alookup k lim = none → alookup k L = none)
+  | [], lim, L, _, h => by
+    simp only [adjustLoop, Except.ok.injEq] at h
+    subst h
+    exact ⟨rfl, fun _ _ => rfl, fun k e hk => by simp at hk, fun k hk => by simp at hk⟩
+  | name :: rest, lim, L, hnd, h => by
+    have hnr : name ∉ rest := (List.nodup_cons.mp hnd).1
+    have hndr : rest.Nodup := (List.nodup_cons.mp hnd).2
+    unfold adjustLoop at h
+    cases hl : alookup name lim with
+    | none =>
+      rw [hl] at h
+      obtain ⟨h1, h2, h3, h4⟩ := adjustLoop_spec hndr h
+      refine ⟨h1, fun k hk => h2 k (fun hh => hk (List.mem_cons_of_mem _ hh)), ?_, ?_⟩
+      · intro k e hk he
+        rcases List.mem_cons.mp hk with rfl | hk
+        · rw [hl] at he; cases he
+        · exact h3 k e hk he
+      · intro k hk hn
+        rcases List.mem_cons.mp hk with rfl | hk
+        · rw [h2 k hnr]; exact hl
+        · exact h4 k hk hn
+    | some e0 =>
+      rw [hl] at h
+      dsimp only at h
+      cases ha : adjustEntry d name e0 with
+      | error err => rw [ha] at h; cases h
+      | ok e' =>
+        rw [ha] at h
+        dsimp only at h
+        obtain ⟨h1, h2, h3, h4⟩ := adjustLoop_spec hndr h
+        have hlook : ∀ k, alookup k (areplace name e' lim) =
+            if k = name then some e' else alookup k lim := by
+          intro k
+          rw [alookup_areplace, hl]
+          simp
+        refine ⟨by rw [h1, limKeys_areplace], ?_, ?_, ?_⟩
+        · intro k hk
+          have hk1 : k ≠ name := fun hh => hk (hh ▸ List.mem_cons_self)
+          have hk2 : k ∉ rest := fun hh => hk (List.mem_cons_of_mem _ hh)
+          rw [h2 k hk2, hlook k, if_neg hk1]
+        · intro k e hk he
+          rcases List.mem_cons.mp hk with rfl | hk
+          · rw [hl] at he; cases he
+            refine ⟨e', ha, ?_⟩
+            rw [h2 k hnr, hlook k, if_pos rfl]
+          · have hk1 : k ≠ name := fun hh => hnr (hh ▸ hk)
+            have : alookup k (areplace name e' lim) = some e := by rw [hlook k, if_neg hk1]; exact he
+            exact h3 k e hk this
+        · intro k hk hn
+          rcases List.mem_cons.mp hk with rfl | hk
+          · rw [hl] at hn; cases hn
+          · have hk1 : k ≠ name := fun hh => hnr (hh ▸ hk)
+            have : alookup k (areplace name e' lim) = none := by rw [hlook k, if_neg hk1]; exact hn
+            exact h4 k hk this
+
+theorem normDefault_length {o : Option LimEntry} {d : List LimVal} (h : normDefault o = .ok d) :
+    d.length = 3 ∨ d.length = 4 := by
+  unfold normDefault at h
+  split at h
+  · cases h; exact Or.inl rfl
+  · cases h; exact Or.inl rfl
+  · split at h
+    · cases h; omega
+    · cases h
+
+/-- the slices of `_adjust_limit` are the role-wise documented completion -/
+theorem adjustEntry_doc {d : List LimVal} (hd : d.length = 3 ∨ d.length = 4) {name : String}
+    {l : List LimVal} {e : LimEntry} (h : adjustEntry d name (.vals l) = .ok e) :
+    e = .vals (docEntry d name l) := by
+  unfold adjustEntry at h
+  unfold docEntry
+  by_cases hs : name ∈ SEQUENCE
+  · simp only [hs, and_true, if_true] at h ⊢
+    by_cases hl : l.length < 4
+    · simp only [hl, if_true] at h ⊢
+      split at h
+      · rename_i h4
+        cases h
+        rcases d with _ | ⟨a, _ | ⟨b, _ | ⟨c, _ | ⟨e4, _ | ⟨f, t⟩⟩⟩⟩⟩ <;> simp at h4
+        rcases l with _ | ⟨x, _ | ⟨y, _ | ⟨z, _ | ⟨u, t'⟩⟩⟩⟩ <;>
+          first
+          | (exfalso; simp only [List.length_cons] at hl; omega)
+          | simp [slotOr, defWeight, defBias, defRecurrent, defActivation]
+      · cases h
+    · simp only [hl, if_false] at h ⊢
+      split at h
+      · rename_i h3; omega
+      · cases h; rfl
+  · simp only [hs, and_false, if_false] at h ⊢
+    by_cases hl : l.length < 3
+    · simp only [hl, if_true] at h ⊢
+      cases h
+      rcases hd with hd | hd
+      · rcases d with _ | ⟨a, _ | ⟨b, _ | ⟨c, _ | ⟨e4, t⟩⟩⟩⟩ <;> simp at hd
+        rcases l with _ | ⟨x, _ | ⟨y, _ | ⟨z, t'⟩⟩⟩ <;>
+          first
+          | (exfalso; simp only [List.length_cons] at hl; omega)
+          | simp [slotOr, defWeight, defBias, defActivation]
+      · rcases d with _ | ⟨a, _ | ⟨b, _ | ⟨c, _ | ⟨e4, _ | ⟨f, t⟩⟩⟩⟩⟩ <;> simp at hd
+        rcases l with _ | ⟨x, _ | ⟨y, _ | ⟨z, t'⟩⟩⟩ <;>
+          first
+          | (exfalso; simp only [List.length_cons] at hl; omega)
+          | simp [slotOr, defWeight, defBias, defActivation]
+    · simp only [hl, if_false] at h ⊢
+      cases h; rfl
+
 end QKV.AutoQ
